@@ -21,7 +21,8 @@ class Prop:
             "HistoricalScheduler (datetime clock) and CatchScheduler over a virtual scheduler, and for interval / timer(due, period): tick k "
             "must run exactly at k*period (also when a tick itself takes virtual time, less than a period) with the state returned by tick k-1, no tick may start after dispose() returned, none after a tick "
             "raised, interval/timer emit 0,1,2,... at those ticks. TH: the same on EventLoopScheduler, NewThreadScheduler and "
-            "TimeoutScheduler with a controlled disposing thread, 0-3 forced pre-emptions, spurious wake-ups and clock drift: ticks never "
+            "TimeoutScheduler (bare, or wrapped in a CatchScheduler whose handler swallows or refuses the exception) with a controlled disposing thread, "
+            "0-3 forced pre-emptions (some of them stalls: the thread stays off the CPU for 0.3-40 simulated ms), spurious wake-ups and clock drift: ticks never "
             "early (tick k not before k*period after scheduling) and not missing (all but the last elapsed period have ticked when dispose() is called, "
             "also on a scheduler whose worker thread is already alive and idle), state threaded, ticks serial, none after a raise, and after dispose() "
             "returned at most the one tick the worker had already committed to (none if the worker was blocked or the dispose came from "
@@ -38,8 +39,9 @@ class Prop:
                     "raise_at": rng.choice([None, None, None, 0, 1, 3]), "dispose_in_tick": rng.choice([None, None, None, 1, 2]),
                     "work": rng.choice([0, 0, 0, 0.5, 2.5, 3])}  # virtual time a tick itself takes (less than the period, else 0)
         return {"mode": "th", "on": rng.choice(["eventloop", "newthread", "timeout"]), "period_ms": rng.choice([1, 2, 5, 10]),
-                "dispose_after_ms": rng.choice([0, 1, 3, 7, 12, 25]), "raise_at": rng.choice([None, None, None, 1, 2]),
-                "dispose_in_tick": rng.choice([None, None, None, 1, 2]), "sched": th.gen_sched(rng, spurious_p=0.3, drift_p=0.3, sweep_p=0.02),
+                "dispose_after_ms": rng.choice([0, 1, 3, 7, 12, 25]), "raise_at": rng.choice([None, None, None, 0, 1, 2]),
+                "dispose_in_tick": rng.choice([None, None, None, 1, 2]), "sched": th.gen_sched(rng, spurious_p=0.3, drift_p=0.3, sweep_p=0.02, stall_p=0.5),
+                "catch": rng.choice([None, None, None, True, True, False]),  # wrapped in a CatchScheduler whose handler returns this
                 "warm": rng.random() < 0.4}  # the scheduler has already run something: its worker thread (if it keeps one) is alive and idle
 
     def execute(self, sc):
@@ -161,12 +163,14 @@ class Prop:
         holder = {}
 
         def factory():
-            st = {"ticks": [], "inside": None, "overlap": False}
+            st = {"ticks": [], "inside": None, "overlap": False, "handled": []}
             holder["st"] = st
 
             def body(sim, shim):
-                from reactivex.scheduler import EventLoopScheduler, NewThreadScheduler, TimeoutScheduler
+                from reactivex.scheduler import CatchScheduler, EventLoopScheduler, NewThreadScheduler, TimeoutScheduler
                 s = {"eventloop": EventLoopScheduler, "newthread": NewThreadScheduler, "timeout": TimeoutScheduler}[sc["on"]]()
+                if sc.get("catch") is not None:
+                    s = CatchScheduler(s, lambda e: st["handled"].append(e) or sc["catch"])
                 period = sc["period_ms"] / 1000.0
                 box = {}
 
@@ -178,7 +182,7 @@ class Prop:
                         d.dispose()
                         st["disp_ret"] = sim.tick()
                         workers = [t for t in sim.threads if t.kind == "lib" and t.state != "done"]
-                        st["strict"] = from_tick or all(t.state == "blocked" for t in workers) or st["inside"] is not None
+                        st["strict"] = from_tick or all(t.state == "blocked" and t.blocked_on != "stall" for t in workers) or st["inside"] is not None
 
                 def action(state):
                     k = len(st["ticks"])
@@ -209,7 +213,8 @@ class Prop:
 
             return body
 
-        sim, cps = th.explore(sc, factory, out, focus=("periodicscheduler.py", "newthreadscheduler.py", "eventloopscheduler.py", "timeoutscheduler.py"), max_steps=150000)
+        focus = ("periodicscheduler.py", "newthreadscheduler.py", "eventloopscheduler.py", "timeoutscheduler.py") + (("catchscheduler.py", "singleassignmentdisposable.py") if sc.get("catch") is not None else ())
+        sim, cps = th.explore(sc, factory, out, focus=focus, max_steps=150000)
         st = holder["st"]
         ticks = st["ticks"]
         dig = th.interleaving_digest(sim)
@@ -239,7 +244,12 @@ class Prop:
                 bad("wrong-thread", "tick %d ran on a caller thread" % k)
         if sc["raise_at"] is not None and len(ticks) > sc["raise_at"] + 1:
             bad("tick-after-raise", "%d ticks ran although tick %d raised" % (len(ticks), sc["raise_at"]))
-        if "disp_inv_t" in st and not sim.faults["clock_drift"] and sc["raise_at"] is None and sc["dispose_in_tick"] is None:
+        if sc.get("catch") is not None:
+            out.probes["th:catch_handler_%s" % sc["catch"]] += 1
+            want = 1 if (sc["raise_at"] is not None and len(ticks) > sc["raise_at"]) else 0
+            if len(st["handled"]) != want or any(not isinstance(e, Boom) for e in st["handled"]):
+                bad("raise-propagation", "CatchScheduler's handler saw %r, expected %d call(s) with the exception of tick %s" % (st["handled"], want, sc["raise_at"]))
+        if "disp_inv_t" in st and not sim.faults["clock_drift"] and not sim.faults["stall"] and sc["raise_at"] is None and sc["dispose_in_tick"] is None:
             # progress: by the time the disposing thread calls dispose(), all but the last of the periods that have elapsed have ticked
             # (the clock only moves with the run: 1 us per step, jumps to the next timer when every thread waits)
             # each tick costs simulated time of its own (1 us per executed line) that the scheduler does not compensate for: 300 us of
